@@ -3,6 +3,9 @@ import RsomeV.L.LpDualWeak
 import Mathlib.Tactic.Linarith
 import Mathlib.Tactic.Ring
 import Mathlib.Tactic.Positivity
+import Mathlib.Algebra.Order.BigOperators.Ring.Finset
+import Mathlib.Algebra.BigOperators.Group.Finset.Basic
+import Mathlib.Data.List.GetD
 
 /-! Weak duality for the conic layers of the model of `do_math(primal=False)`.
 
@@ -10,6 +13,9 @@ Cone membership is stated without square roots (`0 ≤ head ∧ Σ tail² ≤ he
 every linear ordered field.  The exponential cone is an abstract predicate `E` with the
 pairing property `ExpPair E`; `RsomeV/L/ExpCone.lean` instantiates it with the real
 exponential cone. -/
+
+set_option linter.unusedSectionVars false
+set_option linter.unusedSimpArgs false
 
 namespace RsomeV
 open Finset
@@ -45,4 +51,857 @@ structure WF (P : ConeProg K) : Prop where
   stcov : ∀ i j, P.lp.a i j ≠ 0 → P.st i j = true
 
 end ConeProg
+
+/-! ### Generic list / sum lemmas -/
+
+lemma sum_map_eq_range (l : List ℕ) (f : ℕ → K) :
+    (l.map f).sum = ∑ p ∈ range l.length, f (l.getD p 0) := by
+  induction l with
+  | nil => simp
+  | cons a l ih =>
+    rw [List.map_cons, List.sum_cons, List.length_cons, Finset.sum_range_succ', ih]
+    simp [add_comm]
+
+/-- Cauchy–Schwarz form of the self-duality of the second-order cone (no square roots) -/
+theorem soc_pairing (n : ℕ) (x y : ℕ → K) (t s : K) (ht : 0 ≤ t) (hs : 0 ≤ s)
+    (hx : ∑ i ∈ range n, x i ^ 2 ≤ t ^ 2) (hy : ∑ i ∈ range n, y i ^ 2 ≤ s ^ 2) :
+    0 ≤ t * s + ∑ i ∈ range n, x i * y i := by
+  have cs := Finset.sum_mul_sq_le_sq_mul_sq (range n) x y
+  have h1 : (∑ i ∈ range n, x i * y i) ^ 2 ≤ (t * s) ^ 2 := by
+    calc (∑ i ∈ range n, x i * y i) ^ 2 ≤ (∑ i ∈ range n, x i ^ 2) * ∑ i ∈ range n, y i ^ 2 := cs
+      _ ≤ t ^ 2 * s ^ 2 := by
+          apply mul_le_mul hx hy (sum_nonneg (fun i _ => sq_nonneg _)) (sq_nonneg _)
+      _ = (t * s) ^ 2 := by ring
+  have h2 : |∑ i ∈ range n, x i * y i| ≤ |t * s| := sq_le_sq.mp h1
+  have h3 : |t * s| = t * s := abs_of_nonneg (mul_nonneg ht hs)
+  rw [h3] at h2
+  have := neg_le_of_abs_le h2
+  linarith
+
+/-- pairing of two second-order cone members given by index lists of equal length -/
+theorem socMem_pairing (u v : ℕ → K) (q b : List ℕ) (hlen : q.length = b.length)
+    (hu : socMem u q) (hv : socMem v b) :
+    0 ≤ ∑ p ∈ range q.length, u (q.getD p 0) * v (b.getD p 0) := by
+  cases q with
+  | nil => simp
+  | cons h T =>
+    cases b with
+    | nil => simp at hlen
+    | cons h' T' =>
+      simp only [List.length_cons, Nat.add_right_cancel_iff] at hlen
+      obtain ⟨hu0, hu1⟩ := hu
+      obtain ⟨hv0, hv1⟩ := hv
+      rw [sum_map_eq_range] at hu1 hv1
+      rw [List.length_cons, Finset.sum_range_succ']
+      simp only [List.getD_cons_succ, List.getD_cons_zero]
+      have := soc_pairing T.length (fun p => u (T.getD p 0)) (fun p => v (T'.getD p 0)) (u h) (v h')
+        hu0 hv0 hu1 (by rw [hlen]; exact hv1)
+      linarith
+
+/-! ### The LP layer with slack in the dual rows -/
+
+namespace LinProg
+
+/-- the sign-normalised primal point: `do_math` substitutes `x ↦ -x` on columns whose upper
+bound is zero (`isNeg`) -/
+def sx (P : LinProg K) (x : ℕ → K) (j : ℕ) : K := if P.isNeg j then - x j else x j
+
+lemma isNeg_le_zero (P : LinProg K) (x : ℕ → K) (hx : P.Feas x) (j : ℕ) (hj : j < P.nc)
+    (hn : P.isNeg j = true) : x j ≤ 0 := by
+  have hub := hx.ubs j hj
+  simp only [isNeg] at hn
+  cases hu : P.ub j with
+  | none => simp [hu] at hn
+  | some u =>
+    have hu0 : u = 0 := by simpa [hu] using hn
+    have : x j ≤ u := by simpa [leUb, hu] using hub
+    linarith
+
+/-- Weak duality with slack: if `y` satisfies the bounds of the LP dual and its rows with
+right-hand side lowered by `τ`, the dual value is below the primal value by at least `τ · sx x`. -/
+theorem dual_weak_slack (P : LinProg K) (x y τ : ℕ → K) (hx : P.Feas x)
+    (hub : ∀ i < P.augNr, leUb (y i) (P.dual.ub i))
+    (hrow : ∀ j < P.nc, if P.dual.eq j then P.dual.row j y = P.dual.b j - τ j
+                        else P.dual.row j y ≤ P.dual.b j - τ j) :
+    ∑ i ∈ range P.augNr, P.augB i * y i ≤ P.obj x - ∑ j ∈ range P.nc, τ j * P.sx x j := by
+  set t : ℕ → K := fun j => if P.isNeg j then - τ j else τ j with ht
+  set P' : LinProg K := { P with c := fun j => P.c j - t j } with hP'
+  have hx' : P'.Feas x := ⟨hx.rows, hx.ubs, hx.lbs⟩
+  have hy' : P'.dual.Feas y := by
+    refine ⟨?_, hub, ?_⟩
+    · intro j hj
+      have := hrow j hj
+      have hb : P'.dual.b j = P.dual.b j - τ j := by
+        show (if P.isNeg j then - (P.c j - t j) else P.c j - t j) = (if P.isNeg j then - P.c j else P.c j) - τ j
+        simp only [ht]
+        split_ifs <;> ring
+      rw [hb]
+      exact this
+    · intro i _; trivial
+  have := dual_weak P' x y hx' hy'
+  have hobj : P'.obj x = P.obj x - ∑ j ∈ range P.nc, τ j * P.sx x j := by
+    show ∑ j ∈ range P.nc, (P.c j - t j) * x j = ∑ j ∈ range P.nc, P.c j * x j - _
+    rw [← Finset.sum_sub_distrib]
+    apply Finset.sum_congr rfl
+    intro j _
+    simp only [ht, sx]
+    split_ifs <;> ring
+  rw [hobj] at this
+  exact this
+
+end LinProg
+
+lemma socMem_sx (P : LinProg K) (x : ℕ → K) (hx : P.Feas x) (q : List ℕ)
+    (hq : ∀ j ∈ q, j < P.nc) (h : socMem x q) : socMem (P.sx x) q := by
+  cases q with
+  | nil => trivial
+  | cons a T =>
+    obtain ⟨h0, h1⟩ := h
+    have hsq : ∀ j, P.sx x j ^ 2 = x j ^ 2 := by
+      intro j; simp only [LinProg.sx]; split_ifs <;> ring
+    have ha : 0 ≤ P.sx x a := by
+      simp only [LinProg.sx]
+      split_ifs with hn
+      · have := P.isNeg_le_zero x hx a (hq a (by simp)) hn
+        linarith
+      · exact h0
+    refine ⟨ha, ?_⟩
+    simp only [hsq]
+    exact h1
+
+/-! ### Slack-certified weak duality and the general SOC layout -/
+
+namespace ConeProg
+
+/-- feasibility of a (dual) conic program with the right-hand side of row `r` lowered by `σ r` -/
+structure FeasSlack (S : ConeProg K) (E : K → K → K → Prop) (σ w : ℕ → K) : Prop where
+  rows : ∀ r < S.lp.nr, if S.lp.eq r then S.lp.row r w = S.lp.b r - σ r
+                         else S.lp.row r w ≤ S.lp.b r - σ r
+  ubs  : ∀ i < S.lp.nc, LinProg.leUb (w i) (S.lp.ub i)
+  lbs  : ∀ i < S.lp.nc, LinProg.geLb (w i) (S.lp.lb i)
+  soc  : ∀ q ∈ S.qmat, socMem w q
+  exp  : ∀ e ∈ S.xmat, E (w (e.getD 0 0)) (w (e.getD 1 0)) (w (e.getD 2 0))
+
+lemma Feas.toSlack {S : ConeProg K} {E : K → K → K → Prop} {w : ℕ → K} (h : S.Feas E w) :
+    S.FeasSlack E (fun _ => 0) w :=
+  ⟨by simpa using h.lin.rows, h.lin.ubs, h.lin.lbs, h.soc, h.exp⟩
+
+/-- `S` is a weak dual of `P` *with row slack*: whenever `w` satisfies the cones and bounds of `S`
+and its rows with right-hand side lowered by `σ`, the dual value `- S.lp.obj w` is below the primal
+value by at least the slack paired with the (sign-normalised) primal point.  `rowOf j` is the
+row of `S` that carries primal column `j` (out of range if that row was eliminated).
+With `σ = 0` this is weak duality; a block of extra dual columns (the exponential block) is
+absorbed by taking `σ` to be the contribution of the extra columns to each row. -/
+def WeakSlack (P S : ConeProg K) (E : K → K → K → Prop) (rowOf : ℕ → ℕ) : Prop :=
+  ∀ x w σ : ℕ → K, P.Feas E x → S.FeasSlack E σ w →
+    - S.lp.obj w ≤ P.lp.obj x -
+      ∑ j ∈ range P.lp.nc, (if rowOf j < S.lp.nr then σ (rowOf j) * P.lp.sx x j else 0)
+
+theorem WeakSlack.weak {P S : ConeProg K} {E : K → K → K → Prop} {rowOf : ℕ → ℕ}
+    (h : WeakSlack P S E rowOf) (x w : ℕ → K) (hx : P.Feas E x) (hw : S.Feas E w) :
+    - S.lp.obj w ≤ P.lp.obj x := by
+  have := h x w (fun _ => 0) hx hw.toSlack
+  simpa using this
+
+lemma getD_mem' (l : List ℕ) (p : ℕ) (hp : p < l.length) (d : ℕ) : l.getD p d ∈ l := by
+  rw [List.getD_eq_getElem _ _ hp]; exact List.getElem_mem hp
+
+lemma getD_irrel (l : List ℕ) (k : ℕ) (hk : k < l.length) (d d' : ℕ) : l.getD k d = l.getD k d' := by
+  rw [List.getD_eq_getElem _ _ hk, List.getD_eq_getElem _ _ hk]
+
+/-- the pairing of the primal cone vectors with the dual block columns is non-negative -/
+lemma blocks_pairing (u v : ℕ → K) (d : ℕ) : ∀ (qs : List (List ℕ)) (o : ℕ),
+    (∀ q ∈ qs, socMem u q) → (∀ b ∈ qBlocks qs o, socMem v b) →
+    0 ≤ ∑ k ∈ range qs.flatten.length, v (o + k) * u (qs.flatten.getD k d) := by
+  intro qs
+  induction qs with
+  | nil => intro o _ _; simp
+  | cons q qs ih =>
+    intro o hu hv
+    rw [List.flatten_cons, List.length_append, Finset.sum_range_add]
+    have h1 : ∑ k ∈ range q.length, v (o + k) * u ((q ++ qs.flatten).getD k d)
+        = ∑ p ∈ range q.length, u (q.getD p 0) * v (((List.range q.length).map (· + o)).getD p 0) := by
+      apply Finset.sum_congr rfl
+      intro k hk
+      have hk' : k < q.length := Finset.mem_range.mp hk
+      have hbk : ((List.range q.length).map (· + o)).getD k 0 = k + o := by
+        rw [List.getD_eq_getElem _ _ (by simpa using hk')]; simp
+      rw [List.getD_append _ _ _ _ hk', getD_irrel q k hk' d 0, hbk, mul_comm, add_comm]
+    have h2 : ∑ k ∈ range qs.flatten.length, v (o + (q.length + k)) * u ((q ++ qs.flatten).getD (q.length + k) d)
+        = ∑ k ∈ range qs.flatten.length, v (o + q.length + k) * u (qs.flatten.getD k d) := by
+      apply Finset.sum_congr rfl
+      intro k _
+      rw [List.getD_append_right _ _ _ _ (by omega)]
+      simp [add_assoc]
+    rw [h1, h2]
+    have hb : ∀ b ∈ qBlocks qs (o + q.length), socMem v b := by
+      intro b hb; apply hv; simp [qBlocks, hb]
+    have hq := socMem_pairing u v q ((List.range q.length).map (· + o)) (by simp)
+      (hu q (by simp)) (hv _ (by simp [qBlocks]))
+    have := ih (o + q.length) (fun q' hq' => hu q' (by simp [hq'])) hb
+    linarith
+
+/-- no second-order cones: the SOC layer is the LP dual -/
+theorem lpDual_weakSlack (P : ConeProg K) (E : K → K → K → Prop) (st : ℕ → ℕ → Bool) :
+    WeakSlack P { lp := P.lp.dual, st := st, qmat := [], xmat := [] } E id := by
+  intro x w σ hx hw
+  have h := LinProg.dual_weak_slack P.lp x w σ hx.lin hw.ubs hw.rows
+  have hobj : - (P.lp.dual).obj w = ∑ i ∈ range P.lp.augNr, P.lp.augB i * w i := by
+    simp only [LinProg.obj, LinProg.dual]
+    rw [← Finset.sum_neg_distrib]
+    apply Finset.sum_congr rfl; intro i _; ring
+  have hsum : ∑ j ∈ range P.lp.nc, (if id j < P.lp.dual.nr then σ (id j) * P.lp.sx x j else 0)
+      = ∑ j ∈ range P.lp.nc, σ j * P.lp.sx x j := by
+    apply Finset.sum_congr rfl; intro j hj
+    have : j < P.lp.dual.nr := Finset.mem_range.mp hj
+    simp [this]
+  show - (P.lp.dual).obj w ≤ _ - ∑ j ∈ range P.lp.nc, (if id j < P.lp.dual.nr then σ (id j) * P.lp.sx x j else 0)
+  rw [hobj, hsum]
+  exact h
+
+/-- Weak duality (with row slack) of the general SOC layout `socDual2`. -/
+theorem socDual2_weakSlack (P : ConeProg K) (E : K → K → K → Prop) (hwf : P.WF) :
+    WeakSlack P P.socDual2 E id := by
+  intro x w σ hx hw
+  set τ' : ℕ → K := fun j =>
+    ∑ k ∈ range P.eye.length, (if P.eye.getD k P.lp.nc = j ∧ k < P.eye.length then (1:K) else 0)
+      * w (P.lp.dual.nc + k) with hτ'
+  have hrow_split : ∀ j, P.socDual2.lp.row j w = P.lp.dual.row j w + τ' j := by
+    intro j
+    simp only [socDual2, LinProg.row, hτ']
+    rw [Finset.sum_range_add]
+    congr 1
+    · apply Finset.sum_congr rfl; intro i hi
+      have : i < P.lp.dual.nc := Finset.mem_range.mp hi
+      simp [this]
+    · apply Finset.sum_congr rfl; intro k hk
+      simp
+  have hub : ∀ i < P.lp.augNr, LinProg.leUb (w i) (P.lp.dual.ub i) := by
+    intro i hi
+    have hi' : i < P.lp.dual.nc := hi
+    have := hw.ubs i (by simp only [socDual2]; omega)
+    simpa only [socDual2, hi', if_true] using this
+  have hrow : ∀ j < P.lp.nc, if P.lp.dual.eq j then P.lp.dual.row j w = P.lp.dual.b j - (σ j + τ' j)
+      else P.lp.dual.row j w ≤ P.lp.dual.b j - (σ j + τ' j) := by
+    intro j hj
+    have := hw.rows j hj
+    rw [hrow_split] at this
+    have heq : P.socDual2.lp.eq j = P.lp.dual.eq j := rfl
+    have hb : P.socDual2.lp.b j = P.lp.dual.b j := rfl
+    rw [heq, hb] at this
+    split_ifs at this ⊢ with hh
+    · linarith
+    · linarith
+  have h := LinProg.dual_weak_slack P.lp x w (fun j => σ j + τ' j) hx.lin hub hrow
+  have hobj : - P.socDual2.lp.obj w = ∑ i ∈ range P.lp.augNr, P.lp.augB i * w i := by
+    simp only [socDual2, LinProg.obj]
+    rw [Finset.sum_range_add]
+    have h0 : ∑ x ∈ range P.eye.length,
+        (if P.lp.dual.nc + x < P.lp.dual.nc then P.lp.dual.c (P.lp.dual.nc + x) else 0) * w (P.lp.dual.nc + x) = 0 := by
+      apply Finset.sum_eq_zero; intro k _; simp
+    rw [h0, add_zero, ← Finset.sum_neg_distrib]
+    apply Finset.sum_congr rfl; intro i hi
+    have : i < P.lp.dual.nc := Finset.mem_range.mp hi
+    simp only [this, if_true]
+    simp only [LinProg.dual]; ring
+  -- the slack paired with the primal point
+  have hpair : ∑ j ∈ range P.lp.nc, τ' j * P.lp.sx x j
+      = ∑ k ∈ range P.eye.length, w (P.lp.dual.nc + k) * P.lp.sx x (P.eye.getD k P.lp.nc) := by
+    simp only [hτ', Finset.sum_mul]
+    rw [Finset.sum_comm]
+    apply Finset.sum_congr rfl; intro k hk
+    have hk' : k < P.eye.length := Finset.mem_range.mp hk
+    have hmem : P.eye.getD k P.lp.nc ∈ P.eye := by
+      rw [List.getD_eq_getElem _ _ hk']; exact List.getElem_mem hk'
+    have hlt : P.eye.getD k P.lp.nc < P.lp.nc := by
+      rw [eye, List.mem_flatten] at hmem
+      obtain ⟨q, hq, hjq⟩ := hmem
+      exact hwf.qlt q hq _ hjq
+    rw [Finset.sum_eq_single (P.eye.getD k P.lp.nc)]
+    · simp only [hk', and_self, if_true, one_mul]
+    · intro j _ hj; simp only [Ne.symm hj, false_and, if_false, zero_mul]
+    · intro hn; exact absurd (Finset.mem_range.mpr hlt) hn
+  have hnonneg : 0 ≤ ∑ k ∈ range P.eye.length,
+      w (P.lp.dual.nc + k) * P.lp.sx x (P.eye.getD k P.lp.nc) := by
+    apply blocks_pairing (P.lp.sx x) w P.lp.nc P.qmat P.lp.dual.nc
+    · intro q hq
+      exact socMem_sx P.lp x hx.lin q (hwf.qlt q hq) (hx.soc q hq)
+    · intro b hb
+      exact hw.soc b hb
+  have hsum : ∑ j ∈ range P.lp.nc, (if id j < P.socDual2.lp.nr then σ (id j) * P.lp.sx x j else 0)
+      = ∑ j ∈ range P.lp.nc, σ j * P.lp.sx x j := by
+    apply Finset.sum_congr rfl; intro j hj
+    have : j < P.socDual2.lp.nr := Finset.mem_range.mp hj
+    simp only [id, this, if_true]
+  rw [hobj, hsum]
+  have hsplit : ∑ j ∈ range P.lp.nc, (σ j + τ' j) * P.lp.sx x j
+      = ∑ j ∈ range P.lp.nc, σ j * P.lp.sx x j + ∑ j ∈ range P.lp.nc, τ' j * P.lp.sx x j := by
+    rw [← Finset.sum_add_distrib]; apply Finset.sum_congr rfl; intro j _; ring
+  rw [hsplit, hpair] at h
+  linarith
+
+/-- Weak duality of the general SOC layout `socDual2` (`socp.Model.do_math`, layout 2). -/
+theorem socDual2_weak (P : ConeProg K) (E : K → K → K → Prop) (hwf : P.WF)
+    (x w : ℕ → K) (hx : P.Feas E x) (hw : P.socDual2.Feas E w) :
+    - P.socDual2.lp.obj w ≤ P.lp.obj x :=
+  (socDual2_weakSlack P E hwf).weak x w hx hw
+
+/-! ### The compact SOC layout -/
+
+lemma ite_ne_zero' {c : Prop} [Decidable c] {a : K} (h : (if c then a else 0) ≠ 0) : c := by
+  by_contra hc; simp [hc] at h
+
+/-- every non-zero of the augmented primal matrix is a stored entry -/
+lemma augA_ne_zero_augSt (P : ConeProg K) (hwf : P.WF) (i j : ℕ) (h : P.lp.augA i j ≠ 0) :
+    P.augSt i j = true := by
+  by_cases h1 : i < P.lp.nr
+  · simp only [LinProg.augA, h1, if_true] at h
+    simp only [augSt, h1, if_true]
+    exact hwf.stcov i j h
+  by_cases h2 : i < P.lp.nr + P.lp.idxUb.length
+  · simp only [LinProg.augA, h1, h2, if_true, if_false] at h
+    simp only [augSt, h1, h2, if_true, if_false]
+    exact decide_eq_true (ite_ne_zero' h)
+  by_cases h3 : i < P.lp.nr + P.lp.idxUb.length + P.lp.idxLb.length
+  · simp only [LinProg.augA, h1, h2, h3, if_true, if_false] at h
+    simp only [augSt, h1, h2, h3, if_true, if_false]
+    exact decide_eq_true (ite_ne_zero' h)
+  · simp only [LinProg.augA, h1, h2, h3, if_false] at h
+    simp only [augSt, h1, h2, h3, if_false]
+    exact decide_eq_true (ite_ne_zero' h)
+
+lemma dual_a_eq_zero (P : ConeProg K) (hwf : P.WF) (j i0 : ℕ) (hrs : P.rowStored j = [i0])
+    (i : ℕ) (hi : i < P.lp.augNr) (hne : i ≠ i0) : P.lp.dual.a j i = 0 := by
+  by_contra h
+  have h' : P.lp.augA i j ≠ 0 := by
+    intro h0; apply h; simp [LinProg.dual, h0]
+  have hs := augA_ne_zero_augSt P hwf i j h'
+  have hm : i ∈ P.rowStored j := by
+    simp only [rowStored, List.mem_filter, List.mem_range]; exact ⟨hi, hs⟩
+  rw [hrs] at hm
+  exact hne (by simpa using hm)
+
+lemma dual_row_single (P : ConeProg K) (hwf : P.WF) (j i0 : ℕ) (hrs : P.rowStored j = [i0])
+    (y : ℕ → K) : P.lp.dual.row j y = P.lp.dual.a j i0 * y i0 := by
+  have hi0 : i0 < P.lp.augNr := by
+    have : i0 ∈ P.rowStored j := by rw [hrs]; simp
+    simp only [rowStored, List.mem_filter, List.mem_range] at this
+    exact this.1
+  show ∑ i ∈ range P.lp.augNr, P.lp.dual.a j i * y i = _
+  rw [Finset.sum_eq_single i0]
+  · intro i hi hne
+    rw [dual_a_eq_zero P hwf j i0 hrs i (Finset.mem_range.mp hi) hne, zero_mul]
+  · intro hn; exact absurd (Finset.mem_range.mpr hi0) hn
+
+lemma flatMap_single {α : Type} (g : ℕ → List α) (d : α) (l : List ℕ)
+    (h : ∀ j ∈ l, (g j).length = 1) : l.flatMap g = l.map (fun j => (g j).headD d) := by
+  induction l with
+  | nil => simp
+  | cons a l ih =>
+    obtain ⟨v, hv⟩ := List.length_eq_one_iff.mp (h a (by simp))
+    rw [List.flatMap_cons, List.map_cons, ih (fun j hj => h j (by simp [hj])), hv]
+    simp
+
+lemma sum_ite_mem_list (l : List ℕ) (hl : l.Nodup) (n : ℕ) (hn : ∀ j ∈ l, j < n) (f : ℕ → K) :
+    ∑ j ∈ range n, (if j ∈ l then f j else 0) = (l.map f).sum := by
+  rw [← List.sum_toFinset f hl]
+  have : ∀ j, (j ∈ l) = (j ∈ l.toFinset) := by intro j; simp
+  simp only [this]
+  rw [Finset.sum_ite_mem]
+  congr 1
+  apply Finset.inter_eq_right.mpr
+  intro j hj
+  exact Finset.mem_range.mpr (hn j (by simpa using hj))
+
+lemma sum_flatten_map_nonneg (f : ℕ → K) : ∀ (qs : List (List ℕ)),
+    (∀ q ∈ qs, 0 ≤ (q.map f).sum) → 0 ≤ (qs.flatten.map f).sum := by
+  intro qs
+  induction qs with
+  | nil => intro _; simp
+  | cons q qs ih =>
+    intro h
+    rw [List.flatten_cons, List.map_append, List.sum_append]
+    have h1 := h q (by simp)
+    have h2 := ih (fun q' hq' => h q' (by simp [hq']))
+    linarith
+
+lemma mem_linIdx (P : ConeProg K) (j : ℕ) : j ∈ P.linIdx ↔ j < P.lp.nc ∧ j ∉ P.eye := by
+  simp [linIdx]
+
+/-- Weak duality (with row slack) of the compact SOC layout `socDual1`, under the conditions
+`compactOk` that select it, and zero cost on cone columns. -/
+theorem socDual1_weakSlack (P : ConeProg K) (E : K → K → K → Prop) (hwf : P.WF)
+    (hok : P.compactOk = true) (hc : ∀ q ∈ P.qmat, ∀ j ∈ q, P.lp.c j = 0) :
+    WeakSlack P P.socDual1 E (fun j => P.linIdx.idxOf j) := by
+  simp only [compactOk, Bool.and_eq_true, List.all_eq_true, beq_iff_eq, decide_eq_true_eq] at hok
+  obtain ⟨⟨⟨⟨h1, h2⟩, _⟩, h4⟩, h5⟩ := hok
+  intro x w σ hx hw
+  -- notation
+  set iof : ℕ → ℕ := fun j => (P.rowStored j).headD 0 with hiof
+  set y : ℕ → K := fun i => if P.headCols.contains i then - w i else w i with hy
+  set τ : ℕ → K := fun j => if j ∈ P.eye then P.lp.dual.b j - P.lp.dual.row j y
+    else σ (P.linIdx.idxOf j) with hτ
+  have hrs : ∀ j ∈ P.eye, P.rowStored j = [iof j] := by
+    intro j hj
+    obtain ⟨v, hv⟩ := List.length_eq_one_iff.mp (h1 j hj)
+    simp only [hiof, hv, List.headD_cons]
+  have hmemeye : ∀ q ∈ P.qmat, ∀ j ∈ q, j ∈ P.eye := by
+    intro q hq j hj; exact List.mem_flatten.mpr ⟨q, hq, hj⟩
+  have heyelt : ∀ j ∈ P.eye, j < P.lp.nc := by
+    intro j hj
+    obtain ⟨q, hq, hjq⟩ := List.mem_flatten.mp hj
+    exact hwf.qlt q hq j hjq
+  -- bounds of the LP dual at `y`
+  have hub : ∀ i < P.lp.augNr, LinProg.leUb (y i) (P.lp.dual.ub i) := by
+    intro i hi
+    have hu : LinProg.leUb (w i) (if P.headCols.contains i then
+        (match P.lp.dual.lb i with | none => none | some l => some (-l)) else P.lp.dual.ub i) :=
+      hw.ubs i hi
+    have hl : LinProg.geLb (w i) (if P.headCols.contains i then some 0 else P.lp.dual.lb i) :=
+      hw.lbs i hi
+    by_cases hf : P.headCols.contains i = true
+    · simp only [hf, if_true, LinProg.geLb] at hl
+      have hyi : y i ≤ 0 := by simp only [hy, hf, if_true]; linarith
+      show LinProg.leUb (y i) (if P.lp.augEq i then none else some 0)
+      split_ifs
+      · trivial
+      · exact hyi
+    · simp only [hf] at hu
+      simp only [hy, hf]
+      exact hu
+  -- rows of the compact dual are rows of the LP dual at `y`
+  have hrowS : ∀ r, P.socDual1.lp.row r w = P.lp.dual.row (P.linIdx.getD r 0) y := by
+    intro r
+    show ∑ i ∈ range P.lp.dual.nc, (if P.headCols.contains i then - P.lp.dual.a (P.linIdx.getD r 0) i
+        else P.lp.dual.a (P.linIdx.getD r 0) i) * w i
+      = ∑ i ∈ range P.lp.dual.nc, P.lp.dual.a (P.linIdx.getD r 0) i * y i
+    apply Finset.sum_congr rfl; intro i _
+    simp only [hy]
+    split_ifs <;> ring
+  have hidx : ∀ j, j < P.lp.nc → j ∉ P.eye →
+      P.linIdx.idxOf j < P.linIdx.length ∧ P.linIdx.getD (P.linIdx.idxOf j) 0 = j := by
+    intro j hj hje
+    have hm : j ∈ P.linIdx := (mem_linIdx P j).mpr ⟨hj, hje⟩
+    have hlt := List.idxOf_lt_length_iff.mpr hm
+    refine ⟨hlt, ?_⟩
+    rw [List.getD_eq_getElem _ _ hlt]
+    exact List.getElem_idxOf hlt
+  have hrow : ∀ j < P.lp.nc, if P.lp.dual.eq j then P.lp.dual.row j y = P.lp.dual.b j - τ j
+      else P.lp.dual.row j y ≤ P.lp.dual.b j - τ j := by
+    intro j hj
+    by_cases hje : j ∈ P.eye
+    · have : P.lp.dual.b j - τ j = P.lp.dual.row j y := by simp only [hτ, hje, if_true]; ring
+      rw [this]
+      split_ifs
+      · rfl
+      · exact le_refl _
+    · obtain ⟨hlt, hget⟩ := hidx j hj hje
+      have hr : if P.lp.dual.eq (P.linIdx.getD (P.linIdx.idxOf j) 0) then
+          P.socDual1.lp.row (P.linIdx.idxOf j) w
+            = P.lp.dual.b (P.linIdx.getD (P.linIdx.idxOf j) 0) - σ (P.linIdx.idxOf j)
+          else P.socDual1.lp.row (P.linIdx.idxOf j) w
+            ≤ P.lp.dual.b (P.linIdx.getD (P.linIdx.idxOf j) 0) - σ (P.linIdx.idxOf j) :=
+        hw.rows (P.linIdx.idxOf j) hlt
+      rw [hrowS, hget] at hr
+      have : τ j = σ (P.linIdx.idxOf j) := by simp only [hτ, hje, if_false]
+      rw [this]
+      exact hr
+  have h := LinProg.dual_weak_slack P.lp x y τ hx.lin hub hrow
+  -- objective
+  have hobj : - P.socDual1.lp.obj w = ∑ i ∈ range P.lp.augNr, P.lp.augB i * y i := by
+    show - ∑ i ∈ range P.lp.dual.nc, (if P.headCols.contains i then - P.lp.dual.c i
+        else P.lp.dual.c i) * w i = _
+    rw [← Finset.sum_neg_distrib]
+    apply Finset.sum_congr rfl; intro i _
+    simp only [hy, LinProg.dual]
+    split_ifs <;> ring
+  -- the slack of the eliminated rows is in the second-order cone
+  have hτeye : ∀ j ∈ P.eye, τ j = - (P.lp.dual.a j (iof j) * y (iof j)) := by
+    intro j hj
+    have hq : ∃ q ∈ P.qmat, j ∈ q := by
+      obtain ⟨q, hq, hjq⟩ := List.mem_flatten.mp hj; exact ⟨q, hq, hjq⟩
+    obtain ⟨q, hq, hjq⟩ := hq
+    have hb : P.lp.dual.b j = 0 := by
+      show (if P.lp.isNeg j then - P.lp.c j else P.lp.c j) = 0
+      rw [hc q hq j hjq]; simp
+    simp only [hτ, hj, if_true]
+    rw [dual_row_single P hwf j (iof j) (hrs j hj), hb]; ring
+  have hτsoc : ∀ q ∈ P.qmat, socMem τ q := by
+    intro q hq
+    cases q with
+    | nil => trivial
+    | cons a T =>
+      have hwq : socMem w ((a :: T).flatMap P.rowStored) := by
+        apply hw.soc
+        show (a :: T).flatMap P.rowStored ∈ P.qmat.map (fun q => q.flatMap P.rowStored)
+        exact List.mem_map_of_mem hq
+      rw [flatMap_single P.rowStored 0 (a :: T) (fun j hj => h1 j (hmemeye _ hq j hj))] at hwq
+      obtain ⟨hw0, hw1⟩ := hwq
+      have ha1 : P.lp.dual.a a (iof a) = 1 := of_decide_eq_true (h5 _ hq)
+      have haeye : a ∈ P.eye := hmemeye _ hq a (by simp)
+      have hflip : P.headCols.contains (iof a) = true := by
+        simp only [List.contains_iff_mem, headCols, List.mem_flatMap]
+        refine ⟨a :: T, hq, ?_⟩
+        simp only [hrs a haeye]; simp
+      have hτa : τ a = w (iof a) := by
+        rw [hτeye a haeye, ha1]
+        simp only [hy, hflip, if_true]; ring
+      refine ⟨by rw [hτa]; exact hw0, ?_⟩
+      rw [hτa]
+      have : T.map (fun j => τ j ^ 2) = (T.map iof).map (fun i => w i ^ 2) := by
+        rw [List.map_map]
+        apply List.map_congr_left
+        intro j hj
+        have hje : j ∈ P.eye := hmemeye _ hq j (by simp [hj])
+        rw [hτeye j hje]
+        simp only [hy, Function.comp]
+        rcases h4 j hje with ha | ha <;> rw [ha] <;> split_ifs <;> ring
+      rw [this]
+      exact hw1
+  -- pairing
+  have hpair : 0 ≤ ∑ j ∈ range P.lp.nc, (if j ∈ P.eye then τ j * P.lp.sx x j else 0) := by
+    rw [sum_ite_mem_list P.eye h2 P.lp.nc heyelt (fun j => τ j * P.lp.sx x j)]
+    apply sum_flatten_map_nonneg
+    intro q hq
+    rw [sum_map_eq_range]
+    exact socMem_pairing τ (P.lp.sx x) q q rfl (hτsoc q hq)
+      (socMem_sx P.lp x hx.lin q (hwf.qlt q hq) (hx.soc q hq))
+  have hsplit : ∑ j ∈ range P.lp.nc, τ j * P.lp.sx x j
+      = ∑ j ∈ range P.lp.nc, (if P.linIdx.idxOf j < P.socDual1.lp.nr
+            then σ (P.linIdx.idxOf j) * P.lp.sx x j else 0)
+        + ∑ j ∈ range P.lp.nc, (if j ∈ P.eye then τ j * P.lp.sx x j else 0) := by
+    rw [← Finset.sum_add_distrib]
+    apply Finset.sum_congr rfl; intro j hj
+    have hj' : j < P.lp.nc := Finset.mem_range.mp hj
+    have hnr : P.socDual1.lp.nr = P.linIdx.length := rfl
+    rw [hnr]
+    by_cases hje : j ∈ P.eye
+    · have : ¬ P.linIdx.idxOf j < P.linIdx.length := by
+        rw [List.idxOf_lt_length_iff, mem_linIdx]; tauto
+      simp only [this, hje, if_true, if_false, zero_add]
+    · have := (hidx j hj' hje).1
+      simp only [this, hje, if_true, if_false, add_zero, hτ]
+  rw [hobj]
+  rw [hsplit] at h
+  linarith
+
+/-- Weak duality of the compact SOC layout `socDual1` (`socp.Model.do_math`, layout 1). -/
+theorem socDual1_weak (P : ConeProg K) (E : K → K → K → Prop) (hwf : P.WF)
+    (hok : P.compactOk = true) (hc : ∀ q ∈ P.qmat, ∀ j ∈ q, P.lp.c j = 0)
+    (x w : ℕ → K) (hx : P.Feas E x) (hw : P.socDual1.Feas E w) :
+    - P.socDual1.lp.obj w ≤ P.lp.obj x :=
+  (socDual1_weakSlack P E hwf hok hc).weak x w hx hw
+
+/-! ### The SOC layer `socDual`, all branches -/
+
+lemma socDual_xmat (P : ConeProg K) : P.socDual.xmat = [] := by
+  unfold socDual; split_ifs <;> rfl
+
+lemma socDual_nr (P : ConeProg K) :
+    P.socDual.lp.nr = if P.rowsRemoved then P.linIdx.length else P.lp.nc := by
+  unfold socDual rowsRemoved
+  by_cases hq : P.qmat.isEmpty = true
+  · simp only [hq, if_true, Bool.not_true, Bool.false_and]; rfl
+  · by_cases hok : P.compactOk = true
+    · simp only [hq, hok, if_true, if_false]; rfl
+    · simp only [hq, hok, if_false]; rfl
+
+/-- Weak duality (with row slack) of `socDual` = `socp.Model.do_math(primal=False)`, whichever
+branch it takes.  Zero cost on cone columns is needed only in the compact branch. -/
+theorem socDual_weakSlack (P : ConeProg K) (E : K → K → K → Prop) (hwf : P.WF)
+    (hc : P.rowsRemoved = true → ∀ q ∈ P.qmat, ∀ j ∈ q, P.lp.c j = 0) :
+    WeakSlack P P.socDual E P.dualRowOf := by
+  by_cases hq : P.qmat.isEmpty = true
+  · have h1 : P.dualRowOf = id := by
+      funext j; simp [dualRowOf, rowsRemoved, hq]
+    have h2 : P.socDual = { lp := P.lp.dual, st := fun j i => P.augSt i j, qmat := [], xmat := [] } := by
+      unfold socDual; rw [if_pos hq]
+    rw [h1, h2]
+    exact lpDual_weakSlack P E _
+  · by_cases hok : P.compactOk = true
+    · have hrr : P.rowsRemoved = true := by simp [rowsRemoved, hq, hok]
+      have h1 : P.dualRowOf = fun j => P.linIdx.idxOf j := by
+        funext j; simp [dualRowOf, hrr]
+      have h2 : P.socDual = P.socDual1 := by
+        unfold socDual; rw [if_neg hq, if_pos hok]
+      rw [h1, h2]
+      exact socDual1_weakSlack P E hwf hok (hc hrr)
+    · have hrr : P.rowsRemoved = false := by simp [rowsRemoved, hok]
+      have h1 : P.dualRowOf = id := by
+        funext j; simp [dualRowOf, hrr]
+      have h2 : P.socDual = P.socDual2 := by
+        unfold socDual; rw [if_neg hq, if_neg hok]
+      rw [h1, h2]
+      exact socDual2_weakSlack P E hwf
+
+lemma dualRowOf_inj (P : ConeProg K) (j j' : ℕ) (h : P.dualRowOf j < P.socDual.lp.nr)
+    (h' : P.dualRowOf j = P.dualRowOf j') : j = j' := by
+  rw [socDual_nr] at h
+  by_cases hrr : P.rowsRemoved = true
+  · simp only [dualRowOf, hrr, if_true] at h h'
+    have h2 : P.linIdx.idxOf j' < P.linIdx.length := h' ▸ h
+    have e1 := List.getElem_idxOf h
+    have e2 := List.getElem_idxOf h2
+    rw [← e1, ← e2]
+    simp only [h']
+  · simp only [dualRowOf, hrr] at h'
+    exact h'
+
+lemma dualRowOf_lt (P : ConeProg K) (hwf : P.WF)
+    (hxq : P.rowsRemoved = true → ∀ e ∈ P.xmat, ∀ j ∈ e, j ∉ P.eye)
+    (e : List ℕ) (he : e ∈ P.xmat) (j : ℕ) (hj : j ∈ e) : P.dualRowOf j < P.socDual.lp.nr := by
+  rw [socDual_nr]
+  have hlt := hwf.xlt e he j hj
+  by_cases hrr : P.rowsRemoved = true
+  · simp only [dualRowOf, hrr, if_true]
+    rw [List.idxOf_lt_length_iff, mem_linIdx]
+    exact ⟨hlt, hxq hrr e he j hj⟩
+  · simp only [dualRowOf, hrr]
+    exact hlt
+
+/-! ### The exponential-cone block -/
+
+/-- dual row carrying the `p`-th column of the `k`-th exponential cone -/
+def exRow (P : ConeProg K) (k p : ℕ) : ℕ := P.dualRowOf ((P.xmat.getD k []).getD p 0)
+
+/-- the coefficient block of the exponential cones (`blk` in `coneDual`) -/
+def expBlk (P : ConeProg K) (r i : ℕ) : K :=
+  (if i % 3 = 2 ∧ r = P.exRow (i / 3) 0 then -1 else 0) +
+  (if i % 3 = 1 ∧ r = P.exRow (i / 3) 1 then 1 else 0) +
+  (if i % 3 = 0 ∧ r = P.exRow (i / 3) 2 then -1 else 0) +
+  (if i % 3 = 2 ∧ r = P.exRow (i / 3) 2 then -1 else 0)
+
+lemma coneDual_of_xmat (P : ConeProg K) (h : ¬ P.xmat.isEmpty = true) :
+    P.coneDual =
+      { lp := { nr := P.socDual.lp.nr
+                nc := P.socDual.lp.nc + 3 * P.xmat.length
+                a := fun r i => if i < P.socDual.lp.nc then P.socDual.lp.a r i
+                  else (if i < P.socDual.lp.nc + 3 * P.xmat.length
+                    then P.expBlk r (i - P.socDual.lp.nc) else 0)
+                b := P.socDual.lp.b
+                eq := P.socDual.lp.eq
+                ub := fun i => if i < P.socDual.lp.nc then P.socDual.lp.ub i else none
+                lb := fun i => if i < P.socDual.lp.nc then P.socDual.lp.lb i else none
+                c := fun i => if i < P.socDual.lp.nc then P.socDual.lp.c i else 0 }
+        st := fun r i => if i < P.socDual.lp.nc then P.socDual.st r i
+          else decide (P.expBlk r (i - P.socDual.lp.nc) ≠ 0)
+        qmat := P.socDual.qmat
+        xmat := (List.range P.xmat.length).map fun k =>
+          [P.socDual.lp.nc + 3 * k, P.socDual.lp.nc + 3 * k + 1, P.socDual.lp.nc + 3 * k + 2] } := by
+  unfold coneDual
+  rw [if_neg h]
+  rfl
+
+lemma expBlk_0 (P : ConeProg K) (r k : ℕ) :
+    P.expBlk r (3 * k) = if r = P.exRow k 2 then -1 else 0 := by
+  have h1 : (3 * k) % 3 = 0 := by omega
+  have h2 : (3 * k) / 3 = k := by omega
+  simp [expBlk, h1, h2]
+
+lemma expBlk_1 (P : ConeProg K) (r k : ℕ) :
+    P.expBlk r (3 * k + 1) = if r = P.exRow k 1 then 1 else 0 := by
+  have h1 : (3 * k + 1) % 3 = 1 := by omega
+  have h2 : (3 * k + 1) / 3 = k := by omega
+  simp [expBlk, h1, h2]
+
+lemma expBlk_2 (P : ConeProg K) (r k : ℕ) :
+    P.expBlk r (3 * k + 2) = (if r = P.exRow k 0 then -1 else 0) + (if r = P.exRow k 2 then -1 else 0) := by
+  have h1 : (3 * k + 2) % 3 = 2 := by omega
+  have h2 : (3 * k + 2) / 3 = k := by omega
+  simp [expBlk, h1, h2]
+
+lemma sum_range_three (g : ℕ → K) (m : ℕ) :
+    ∑ i ∈ range (3 * m), g i = ∑ k ∈ range m, (g (3 * k) + g (3 * k + 1) + g (3 * k + 2)) := by
+  induction m with
+  | zero => simp
+  | succ m ih =>
+    rw [show 3 * (m + 1) = 3 * m + 1 + 1 + 1 by ring, Finset.sum_range_succ, Finset.sum_range_succ,
+      Finset.sum_range_succ, ih, Finset.sum_range_succ]
+    ring
+
+lemma sum_rowOf_single (ρ : ℕ → ℕ) (nr nc : ℕ) (hinj : ∀ j j', ρ j < nr → ρ j = ρ j' → j = j')
+    (v : ℕ → K) (e : ℕ) (he : e < nc) (hρ : ρ e < nr) (c : K) :
+    ∑ j ∈ range nc, (if ρ j < nr then (if ρ j = ρ e then c else 0) * v j else 0) = c * v e := by
+  rw [Finset.sum_eq_single e]
+  · simp [hρ]
+  · intro j _ hne
+    by_cases h1 : ρ j < nr
+    · have : ¬ ρ j = ρ e := fun h => hne (hinj j e h1 h)
+      simp [this]
+    · simp [h1]
+  · intro hn; exact absurd (Finset.mem_range.mpr he) hn
+
+lemma exp_inner (ρ : ℕ → ℕ) (nr nc : ℕ) (hinj : ∀ j j', ρ j < nr → ρ j = ρ j' → j = j')
+    (v : ℕ → K) (e0 e1 e2 : ℕ) (h0 : e0 < nc) (h1 : e1 < nc) (h2 : e2 < nc)
+    (r0 : ρ e0 < nr) (r1 : ρ e1 < nr) (r2 : ρ e2 < nr) (u0 u1 u2 : K) :
+    ∑ j ∈ range nc, (if ρ j < nr then
+        ((if ρ j = ρ e2 then -1 else 0) * u0 + (if ρ j = ρ e1 then 1 else 0) * u1 +
+          ((if ρ j = ρ e0 then -1 else 0) + (if ρ j = ρ e2 then -1 else 0)) * u2) * v j else 0)
+      = - u2 * v e0 + u1 * v e1 - (u0 + u2) * v e2 := by
+  have e : ∀ j, (if ρ j < nr then
+        ((if ρ j = ρ e2 then -1 else 0) * u0 + (if ρ j = ρ e1 then 1 else 0) * u1 +
+          ((if ρ j = ρ e0 then -1 else 0) + (if ρ j = ρ e2 then -1 else 0)) * u2) * v j else 0)
+      = (if ρ j < nr then (if ρ j = ρ e2 then -u0 else 0) * v j else 0)
+        + (if ρ j < nr then (if ρ j = ρ e1 then u1 else 0) * v j else 0)
+        + (if ρ j < nr then (if ρ j = ρ e0 then -u2 else 0) * v j else 0)
+        + (if ρ j < nr then (if ρ j = ρ e2 then -u2 else 0) * v j else 0) := by
+    intro j
+    split_ifs <;> ring
+  simp only [e]
+  rw [Finset.sum_add_distrib, Finset.sum_add_distrib, Finset.sum_add_distrib,
+    sum_rowOf_single ρ nr nc hinj v e2 h2 r2, sum_rowOf_single ρ nr nc hinj v e1 h1 r1,
+    sum_rowOf_single ρ nr nc hinj v e0 h0 r0, sum_rowOf_single ρ nr nc hinj v e2 h2 r2]
+  ring
+
+/-- The exponential block of `gcp.Model.do_math(primal=False)`: if the SOC layer `socDual` is a
+weak dual with row slack (`WeakSlack`, provided by `socDual_weakSlack`), then `coneDual` is a weak
+dual.  Added hypothesis `hxq` (true by construction: exponential cones and second-order cones
+live on disjoint auxiliary columns): in the compact layout, where the dual rows of SOC columns are
+eliminated, no exponential-cone column is a SOC column. -/
+theorem expBlock_weak (P : ConeProg K) (E : K → K → K → Prop) (hE : ExpPair E) (hwf : P.WF)
+    (hxq : P.rowsRemoved = true → ∀ e ∈ P.xmat, ∀ j ∈ e, j ∉ P.eye)
+    (hS : WeakSlack P P.socDual E P.dualRowOf)
+    (x w : ℕ → K) (hx : P.Feas E x) (hw : P.coneDual.Feas E w) :
+    - P.coneDual.lp.obj w ≤ P.lp.obj x := by
+  by_cases hxm : P.xmat.isEmpty = true
+  · have hcd : P.coneDual = P.socDual := by unfold coneDual; rw [if_pos hxm]
+    rw [hcd] at hw ⊢
+    exact hS.weak x w hx hw
+  rw [coneDual_of_xmat P hxm] at hw ⊢
+  obtain ⟨⟨hrows, hubs, hlbs⟩, hsoc, hexp⟩ := hw
+  -- the contribution of the block columns to each row
+  set σ : ℕ → K := fun r => ∑ i ∈ range (3 * P.xmat.length), P.expBlk r i * w (P.socDual.lp.nc + i) with hσ
+  have hslack : P.socDual.FeasSlack E σ w := by
+    refine ⟨?_, ?_, ?_, hsoc, ?_⟩
+    · intro r hr
+      have h := hrows r hr
+      have hsplit : ∑ i ∈ range (P.socDual.lp.nc + 3 * P.xmat.length),
+          (if i < P.socDual.lp.nc then P.socDual.lp.a r i
+            else (if i < P.socDual.lp.nc + 3 * P.xmat.length
+              then P.expBlk r (i - P.socDual.lp.nc) else 0)) * w i
+          = P.socDual.lp.row r w + σ r := by
+        rw [Finset.sum_range_add]
+        congr 1
+        · apply Finset.sum_congr rfl; intro i hi
+          have : i < P.socDual.lp.nc := Finset.mem_range.mp hi
+          simp only [this, if_true]
+        · apply Finset.sum_congr rfl; intro i hi
+          have : i < 3 * P.xmat.length := Finset.mem_range.mp hi
+          have h1 : ¬ P.socDual.lp.nc + i < P.socDual.lp.nc := by omega
+          have h2 : P.socDual.lp.nc + i < P.socDual.lp.nc + 3 * P.xmat.length := by omega
+          simp only [h1, h2, if_true, if_false, Nat.add_sub_cancel_left]
+      have h' : if P.socDual.lp.eq r then P.socDual.lp.row r w + σ r = P.socDual.lp.b r
+          else P.socDual.lp.row r w + σ r ≤ P.socDual.lp.b r := by
+        rw [← hsplit]; exact h
+      split_ifs at h' ⊢
+      · linarith
+      · linarith
+    · intro i hi
+      have h := hubs i (show i < P.socDual.lp.nc + 3 * P.xmat.length by omega)
+      simpa only [hi, if_true] using h
+    · intro i hi
+      have h := hlbs i (show i < P.socDual.lp.nc + 3 * P.xmat.length by omega)
+      simpa only [hi, if_true] using h
+    · intro e he; rw [socDual_xmat] at he; simp at he
+  have hmain := hS x w σ hx hslack
+  have hobj : ∑ i ∈ range (P.socDual.lp.nc + 3 * P.xmat.length),
+      (if i < P.socDual.lp.nc then P.socDual.lp.c i else 0) * w i = P.socDual.lp.obj w := by
+    rw [Finset.sum_range_add]
+    have h0 : ∑ i ∈ range (3 * P.xmat.length),
+        (if P.socDual.lp.nc + i < P.socDual.lp.nc then P.socDual.lp.c (P.socDual.lp.nc + i) else 0)
+          * w (P.socDual.lp.nc + i) = 0 := by
+      apply Finset.sum_eq_zero; intro i _
+      have : ¬ P.socDual.lp.nc + i < P.socDual.lp.nc := by omega
+      simp only [this, if_false, zero_mul]
+    rw [h0, add_zero]
+    apply Finset.sum_congr rfl; intro i hi
+    have : i < P.socDual.lp.nc := Finset.mem_range.mp hi
+    simp only [this, if_true]
+  show - (∑ i ∈ range (P.socDual.lp.nc + 3 * P.xmat.length),
+      (if i < P.socDual.lp.nc then P.socDual.lp.c i else 0) * w i) ≤ P.lp.obj x
+  rw [hobj]
+  -- the slack pairs non-negatively with the primal point
+  suffices hnn : 0 ≤ ∑ j ∈ range P.lp.nc,
+      (if P.dualRowOf j < P.socDual.lp.nr then σ (P.dualRowOf j) * P.lp.sx x j else 0) by linarith
+  have hσ3 : ∀ r, σ r = ∑ k ∈ range P.xmat.length,
+      ((if r = P.exRow k 2 then -1 else 0) * w (P.socDual.lp.nc + 3 * k)
+        + (if r = P.exRow k 1 then 1 else 0) * w (P.socDual.lp.nc + 3 * k + 1)
+        + ((if r = P.exRow k 0 then -1 else 0) + (if r = P.exRow k 2 then -1 else 0))
+            * w (P.socDual.lp.nc + 3 * k + 2)) := by
+    intro r
+    simp only [hσ]
+    rw [sum_range_three]
+    apply Finset.sum_congr rfl; intro k _
+    rw [expBlk_0, expBlk_1, expBlk_2]
+    simp only [← add_assoc]
+  have hswap : ∑ j ∈ range P.lp.nc,
+      (if P.dualRowOf j < P.socDual.lp.nr then σ (P.dualRowOf j) * P.lp.sx x j else 0)
+      = ∑ k ∈ range P.xmat.length, ∑ j ∈ range P.lp.nc,
+        (if P.dualRowOf j < P.socDual.lp.nr then
+          ((if P.dualRowOf j = P.exRow k 2 then -1 else 0) * w (P.socDual.lp.nc + 3 * k)
+          + (if P.dualRowOf j = P.exRow k 1 then 1 else 0) * w (P.socDual.lp.nc + 3 * k + 1)
+          + ((if P.dualRowOf j = P.exRow k 0 then -1 else 0) + (if P.dualRowOf j = P.exRow k 2 then -1 else 0))
+              * w (P.socDual.lp.nc + 3 * k + 2)) * P.lp.sx x j else 0) := by
+    rw [Finset.sum_comm]
+    apply Finset.sum_congr rfl; intro j _
+    rw [hσ3]
+    split_ifs
+    · rw [Finset.sum_mul]
+    · simp
+  rw [hswap]
+  apply Finset.sum_nonneg
+  intro k hk
+  have hk' : k < P.xmat.length := Finset.mem_range.mp hk
+  -- the k-th exponential cone of the primal
+  have hemem : P.xmat.getD k [] ∈ P.xmat := by
+    rw [List.getD_eq_getElem _ _ hk']; exact List.getElem_mem hk'
+  have hlen := hwf.xlen _ hemem
+  have hpm : ∀ p < 3, (P.xmat.getD k []).getD p 0 ∈ P.xmat.getD k [] := by
+    intro p hp
+    exact getD_mem' _ p (by omega) 0
+  have hlt : ∀ p < 3, (P.xmat.getD k []).getD p 0 < P.lp.nc :=
+    fun p hp => hwf.xlt _ hemem _ (hpm p hp)
+  have hrl : ∀ p < 3, P.dualRowOf ((P.xmat.getD k []).getD p 0) < P.socDual.lp.nr :=
+    fun p hp => dualRowOf_lt P hwf hxq _ hemem _ (hpm p hp)
+  have hsx : ∀ p < 3, P.lp.sx x ((P.xmat.getD k []).getD p 0) = x ((P.xmat.getD k []).getD p 0) := by
+    intro p hp
+    have := hwf.xnotneg _ hemem _ (hpm p hp)
+    simp only [LinProg.sx, this]; simp
+  have hin := exp_inner P.dualRowOf P.socDual.lp.nr P.lp.nc (dualRowOf_inj P) (P.lp.sx x)
+    ((P.xmat.getD k []).getD 0 0) ((P.xmat.getD k []).getD 1 0) ((P.xmat.getD k []).getD 2 0)
+    (hlt 0 (by omega)) (hlt 1 (by omega)) (hlt 2 (by omega))
+    (hrl 0 (by omega)) (hrl 1 (by omega)) (hrl 2 (by omega))
+    (w (P.socDual.lp.nc + 3 * k)) (w (P.socDual.lp.nc + 3 * k + 1)) (w (P.socDual.lp.nc + 3 * k + 2))
+  rw [hsx 0 (by omega), hsx 1 (by omega), hsx 2 (by omega)] at hin
+  have hEx := hx.exp _ hemem
+  have hEw := hexp [P.socDual.lp.nc + 3 * k, P.socDual.lp.nc + 3 * k + 1, P.socDual.lp.nc + 3 * k + 2]
+    (List.mem_map.mpr ⟨k, List.mem_range.mpr hk', rfl⟩)
+  exact le_of_le_of_eq (hE _ _ _ _ _ _ hEx hEw) hin.symm
+
+/-- **Conic weak duality** for the whole model of `gcp.Model.do_math(primal=False)` (no LMIs):
+no cones, compact SOC layout, general SOC layout, with or without the exponential block.
+
+Hypotheses beyond well-formedness, both needed (and assumed) only when the compact layout is
+selected (`P.rowsRemoved = true`, i.e. there are second-order cones and `compactOk` holds):
+* `hc`  : cone columns carry no cost;
+* `hxq` : (added, true by construction) no exponential-cone column is also a second-order-cone
+  column - the compact layout eliminates the dual rows of SOC columns, so an exponential-block
+  entry in such a row would be lost. -/
+theorem coneDual_weak (P : ConeProg K) (E : K → K → K → Prop) (hE : ExpPair E) (hwf : P.WF)
+    (hc : P.rowsRemoved = true → ∀ q ∈ P.qmat, ∀ j ∈ q, P.lp.c j = 0)
+    (hxq : P.rowsRemoved = true → ∀ e ∈ P.xmat, ∀ j ∈ e, j ∉ P.eye)
+    (x w : ℕ → K) (hx : P.Feas E x) (hw : P.coneDual.Feas E w) :
+    - P.coneDual.lp.obj w ≤ P.lp.obj x :=
+  expBlock_weak P E hE hwf hxq (socDual_weakSlack P E hwf hc) x w hx hw
+
+/-- `coneDual_weak` with the two side hypotheses stated unconditionally. -/
+theorem coneDual_weak' (P : ConeProg K) (E : K → K → K → Prop) (hE : ExpPair E) (hwf : P.WF)
+    (hc : ∀ q ∈ P.qmat, ∀ j ∈ q, P.lp.c j = 0)
+    (hxq : ∀ e ∈ P.xmat, ∀ j ∈ e, j ∉ P.eye)
+    (x w : ℕ → K) (hx : P.Feas E x) (hw : P.coneDual.Feas E w) :
+    - P.coneDual.lp.obj w ≤ P.lp.obj x :=
+  coneDual_weak P E hE hwf (fun _ => hc) (fun _ => hxq) x w hx hw
+
+end ConeProg
+
 end RsomeV
